@@ -119,6 +119,9 @@ def run(repo, tier):
     _LB.check_live_env(rep, facts, 'R12.6.live-env')
     from ..comprel import check_stable_decisions
     check_stable_decisions(rep, rel, 'R12.7.stable-decision')
+    from ..comprel import check_operand_value, check_guarded_evaluations
+    check_operand_value(rep, rel, 'R12.8.operand-value')
+    check_guarded_evaluations(rep, rel, 'R12.9.guarded-evaluation')
     rep.floor('criteria rules', 20)
     rep.floor('constructor arguments classified', 40)
     return rep
